@@ -1,5 +1,6 @@
 import Dm.Props.C17
 import Dm.Props.C17Typed
+import Dm.Props.C17Fmt
 #print axioms Dm.Props.C17.order_independent
 #print axioms Dm.Props.C17.unknown_rejected
 #print axioms Dm.Props.C17.repeated_rejected
@@ -22,3 +23,11 @@ import Dm.Props.C17Typed
 #print axioms Dm.Props.C17.into_accepted_arguments
 #print axioms Dm.Props.C17.into_field_skip
 #print axioms Dm.TypedAttr.legacy_rejected_anyway
+#print axioms Dm.Props.C17.bound_bounds_synonyms
+#print axioms Dm.Props.C17.bounds_one_attribute_or_many
+#print axioms Dm.Props.C17.fmt_attribute_order_free
+#print axioms Dm.Props.C17.second_format_or_rename_rejected
+#print axioms Dm.Props.C17.unreadable_attribute_rejected
+#print axioms Dm.Props.C17.unreadable_examples
+#print axioms Dm.Props.C17.debug_enum_positions
+#print axioms Dm.FmtContainer.parseAll_some_iff
